@@ -2,6 +2,7 @@ package main
 
 import (
 	"go/ast"
+	"go/constant"
 	"go/token"
 	"go/types"
 	"path/filepath"
@@ -44,6 +45,8 @@ func runC15(c *Ctx) {
 	c.Rule("C15-R5", "cache protocol: only successes are stored, key names the upstream (shared with C14-R3)", 9)
 	defer c14CacheR(c, "C15-R5")
 	defer c15NoStickyOutage(c)
+	defer c15DeadlineAboveServerLimit(c)
+	defer checkSearchFlags(c, "C15-R1", "internal/promapi.FailoverGroup.MergeUpstreams", "internal/config.Discovery.merge")
 	defer checkParamsUsed(c, "C15-R3", "internal/promapi.NewFailoverGroup", "internal/promapi.NewPrometheus", "internal/config.newFailoverGroup")
 
 	prom := p.Pkg("internal/promapi")
@@ -299,6 +302,33 @@ func runC15(c *Ctx) {
 			}
 			return true
 		})
+		// and every configured URI becomes an upstream: nothing in the loop leaves one out
+		{
+			pm := parentMap(nfg.Decl.Body)
+			nl := 0
+			ast.Inspect(nfg.Decl.Body, func(n ast.Node) bool {
+				rs, ok := n.(*ast.RangeStmt)
+				if !ok {
+					return true
+				}
+				hasNew := false
+				ast.Inspect(rs.Body, func(m ast.Node) bool {
+					if call, ok := m.(*ast.CallExpr); ok && isCallTo(cinfo, call, "internal/promapi.NewPrometheus") {
+						hasNew = true
+					}
+					return true
+				})
+				if !hasNew {
+					return true
+				}
+				nl++
+				why := loopReachesCall(cinfo, pm, rs.Body, "NewPrometheus", func(cl *ast.CallExpr) bool { return isCallTo(cinfo, cl, "internal/promapi.NewPrometheus") })
+				c.Check(why == "", "C15-R1", "newFailoverGroup:every configured URI becomes an upstream", rs.Pos(), "unconditional",
+					why+": a failover address that is left out is never contacted when the others are unavailable, so the group reports an outage although a configured server could have answered")
+				return true
+			})
+			c.Check(nl >= 1, "C15-R1", "newFailoverGroup:upstream loop found", nfg.Decl.Pos(), itoa(nl), "no loop creates the failover upstreams")
+		}
 		c.Check(reorder == "", "C15-R1", "newFailoverGroup:failover list not reordered", nfg.Decl.Pos(), "order kept", "`"+reorder+"` rewrites the configured failover list")
 	}
 	// nobody reorders fg.servers
@@ -1080,4 +1110,79 @@ func atomStr(info *types.Info, a Atom) string {
 		t = "!(" + t + ")"
 	}
 	return t
+}
+
+// c15DeadlineAboveServerLimit: a query that is too expensive is refused by the
+// server itself when the `timeout` it was sent expires (422, an error caused by
+// the query, no failover). That only works while pint's own deadline is later
+// than the limit it sends: every `timeout` request argument is the configured
+// Prometheus.timeout as it is, and requestContext's deadline is that same field
+// plus a positive constant. With the two equal, pint's deadline fires first and
+// the expensive query is classified as a connection timeout: failover, and an
+// outage report, after an error the query caused.
+func c15DeadlineAboveServerLimit(c *Ctx) {
+	R := "C15-R2"
+	prom := c.P.Pkg("internal/promapi")
+	if prom == nil {
+		return
+	}
+	info := prom.TypesInfo
+	nSet := 0
+	for _, fi := range c.P.AllFuncs() {
+		if fi.Pkg != prom || fi.Decl.Body == nil || c.P.IsTestFile(fi.Decl.Pos()) {
+			continue
+		}
+		ast.Inspect(fi.Decl.Body, func(n ast.Node) bool {
+			call, ok := n.(*ast.CallExpr)
+			if !ok || len(call.Args) != 2 {
+				return true
+			}
+			if fn := Callee(info, call); fn == nil || fn.FullName() != "(net/url.Values).Set" {
+				return true
+			}
+			if k, isC := constString(info, call.Args[0]); !isC || k != "timeout" {
+				return true
+			}
+			nSet++
+			good := false
+			if sc, isCall := ast.Unparen(call.Args[1]).(*ast.CallExpr); isCall && len(sc.Args) == 0 {
+				if sel, isSel := sc.Fun.(*ast.SelectorExpr); isSel && sel.Sel.Name == "String" && fieldSel(info, sel.X, "internal/promapi.Prometheus", "timeout") {
+					good = true
+				}
+			}
+			c.Check(good, R, strings.TrimPrefix(fi.Name, "internal/promapi.")+":server-side limit is the configured timeout", call.Pos(), "prom.timeout",
+				"the `timeout` sent to the server is `"+exprStr(call.Args[1])+"`, not the configured timeout itself")
+			return true
+		})
+	}
+	c.Check(nSet >= 2, R, "timeout request arguments enumerated", token.NoPos, itoa(nSet), "fewer than 2 requests send a timeout")
+	rc := c.MustFunc(R, "internal/promapi.Prometheus.requestContext")
+	if rc == nil {
+		return
+	}
+	nCtx := 0
+	ast.Inspect(rc.Decl.Body, func(n ast.Node) bool {
+		call, ok := n.(*ast.CallExpr)
+		if !ok || len(call.Args) != 2 {
+			return true
+		}
+		if fn := Callee(info, call); fn == nil || fn.FullName() != "context.WithTimeout" {
+			return true
+		}
+		nCtx++
+		good := false
+		if be, isBin := ast.Unparen(call.Args[1]).(*ast.BinaryExpr); isBin && be.Op == token.ADD {
+			for _, pair := range [][2]ast.Expr{{be.X, be.Y}, {be.Y, be.X}} {
+				if fieldSel(info, pair[0], "internal/promapi.Prometheus", "timeout") {
+					if tv, has := info.Types[pair[1]]; has && tv.Value != nil && constant.Sign(tv.Value) > 0 {
+						good = true
+					}
+				}
+			}
+		}
+		c.Check(good, R, "requestContext:deadline is the configured timeout plus a positive margin", call.Pos(), "prom.timeout + constant",
+			"pint's own deadline is `"+exprStr(call.Args[1])+"`: it no longer lies after the time limit sent to the server, so a query the server would refuse as too expensive (an error caused by the query) ends as a connection timeout instead, which triggers failover and is reported as an outage")
+		return true
+	})
+	c.Check(nCtx == 1, R, "requestContext:one deadline", rc.Decl.Pos(), itoa(nCtx), "expected exactly one context.WithTimeout")
 }
